@@ -261,6 +261,54 @@ def run_global(paths):
     return obs, proc, b, None
 
 
+def run_tile_guarded(proc, pio, parallel, timeout):
+    """proc.tile(...) in a forked child with its own session, so that a run whose
+    workers died (the dispatcher then blocks forever on a full queue) is turned
+    into an observation instead of hanging the check.  Returns None or an error text."""
+    import signal
+    import time
+    errfile = str(common.workdir() / "c09_tile_error.txt")
+    try:
+        os.unlink(errfile)
+    except OSError:
+        pass
+    pid = os.fork()
+    if pid == 0:
+        code = 0
+        try:
+            os.setsid()
+            with warnings.catch_warnings():
+                warnings.simplefilter("ignore")
+                proc.tile(pio, parallel=parallel, cli_progress=False)
+        except BaseException as e:  # noqa
+            code = 3
+            try:
+                with open(errfile, "w") as f:
+                    f.write(repr(e)[:200])
+            except OSError:
+                pass
+        os._exit(code)
+    t0 = time.time()
+    while True:
+        r, status = os.waitpid(pid, os.WNOHANG)
+        if r == pid:
+            break
+        if time.time() - t0 > timeout:
+            try:
+                os.killpg(pid, signal.SIGKILL)
+            except OSError:
+                pass
+            os.waitpid(pid, 0)
+            return f"tile(parallel={parallel}) did not terminate within {timeout} s"
+        time.sleep(0.01)
+    if os.waitstatus_to_exitcode(status) != 0:
+        try:
+            return "tile raised: " + open(errfile).read()
+        except OSError:
+            return f"tile child exited with status {os.waitstatus_to_exitcode(status)}"
+    return None
+
+
 def read_all_tiles(base, fmt):
     files, other = c08.list_tile_files(base, fmt) if os.path.isdir(base) else (set(), [])
     tiles = {pos: c08.read_tile_direct(base, pos, fmt) for pos in files}
@@ -493,13 +541,7 @@ def run(ctx, V):
         inv = fmt == "fits"
         shutil.rmtree(outdir, ignore_errors=True)
         pio = PyramidIO(outdir, default_format=fmt)
-        raised = None
-        try:
-            with warnings.catch_warnings():
-                warnings.simplefilter("ignore")
-                proc.tile(pio, parallel=variant["parallel"], cli_progress=False)
-        except Exception as e:
-            raised = repr(e)[:200]
+        raised = run_tile_guarded(proc, pio, variant["parallel"], 60 if tier == "quick" else 120)
         tiles, other, locks = read_all_tiles(outdir, fmt)
         shutil.rmtree(outdir, ignore_errors=True)
         ref_tiles, ref_astro = run_reference(layout, P, fmt, refdir)
